@@ -54,7 +54,7 @@ Definition apply_eff (e:eff) (l:list N) : list N :=
   end.
 Definition apply_vop (v:vop) (l:list N) : list N :=
   match v with
-  | VIns r => r :: l
+  | VIns r => l ++ [r]
   | VDel r => removeN r l
   | VUpd a b => map (fun x => if N.eqb x a then b else x) l
   end.
